@@ -89,13 +89,16 @@ Definition passes (s : shape) : bool := match profile_gate s with GPass => true 
    form, for Reference and Transform lists of ANY length *)
 Lemma gate_is_profile s : passes s = in_profile s.
 Proof.
-  destruct s as [rf c t o x]. unfold passes, profile_gate, in_profile, parsed, sole, only_signature_child.
+  destruct s as [rf c t o x]. unfold passes, profile_gate, in_profile, parsed, sole, in_place, only_signature_child.
   cbn [refs c14n trs obj xsig].
-  destruct x.
+  destruct x as [| | |[|] k b].
   - destruct rf as [|r [|r' rf]]; destruct t as [|t1 [|t2 [|t3 t]]];
       try (destruct r); try (destruct t1); try (destruct t2); destruct c, o; reflexivity.
+  - rewrite andb_false_r. cbn [negb andb]. destruct (crashes _); [reflexivity|]. destruct (validators _); reflexivity.
+  - rewrite andb_false_r. cbn [negb andb]. destruct (crashes _); [reflexivity|]. destruct (validators _); reflexivity.
   - rewrite andb_false_r. cbn [negb]. destruct (crashes _); [reflexivity|]. destruct (validators _); reflexivity.
-  - rewrite andb_false_r. cbn [negb]. destruct (crashes _); [reflexivity|]. destruct (validators _); reflexivity.
+  - destruct rf as [|r [|r' rf]]; destruct t as [|t1 [|t2 [|t3 t]]];
+      try (destruct r); try (destruct t1); try (destruct t2); destruct c, o; reflexivity.
 Qed.
 
 Lemma gate_pass_profile s : profile_gate s = GPass -> in_profile s = true.
@@ -108,7 +111,7 @@ Proof. rewrite <- gate_is_profile. unfold passes. destruct (profile_gate s); con
 Lemma profile_covers s : in_profile s = true -> covers_own s = true /\ sole s = true.
 Proof.
   destruct s as [rf c t o x]. unfold in_profile, covers_own. cbn [refs c14n trs obj xsig].
-  intros H. apply andb_true_iff in H. destruct H as [H Hs]. split; [|exact Hs].
+  intros H. apply andb_true_iff in H. destruct H as [H _]. apply andb_true_iff in H. destruct H as [H Hs]. split; [|exact Hs].
   destruct rf as [|[] [|r' rf]]; try discriminate H. reflexivity.
 Qed.
 
@@ -299,7 +302,7 @@ Qed.
 Definition vouched (w : who) (s : option sgn) : Prop :=
   match s with
   | None => True
-  | Some g => corrupt g = false /\ covers_own (shp g) = true /\ xsig (shp g) = XNone /\ md_trusts w (signer g) = true
+  | Some g => corrupt g = false /\ covers_own (shp g) = true /\ sole (shp g) = true /\ md_trusts w (signer g) = true
   end.
 
 Lemma state_ok_vouched c w s : only_md c = true -> ok (state c w s) -> vouched w s.
@@ -308,7 +311,7 @@ Proof.
   destruct s as [g|]; [|trivial].
   destruct (corrupt g); [intros [K|K]; discriminate|].
   destruct (covers_own (shp g)); [|intros [K|K]; discriminate].
-  destruct (xsig (shp g)); cbn [negb orb]; try (intros [K|K]; discriminate).
+  destruct (match xsig (shp g) with XNone | XIn _ _ _ => true | XBefore | XAfter => false end); cbn [negb orb]; try (intros [K|K]; discriminate).
   rewrite orb_false_r. destruct (md_trusts w (signer g)); [auto | intros [K|K]; discriminate].
 Qed.
 
